@@ -193,6 +193,7 @@ def main():
     ap.add_argument('--suite', action='store_true')
     ap.add_argument('--reuse', action='store_true', help='reuse the static results already in --out (same seed/sample)')
     ap.add_argument('--recheck', action='store_true', help='re-run the current rules on the survivors recorded in --out')
+    ap.add_argument('--exclude', default=None, help='results file of an earlier sweep: its mutants are not drawn again')
     ap.add_argument('--out', default=os.path.join(VERIF, 'sweep', 'results.json'))
     a = ap.parse_args()
     from sa.check import load_prop
@@ -217,12 +218,21 @@ def main():
     random.Random(a.seed).shuffle(cands)
     jobs = []
     meta = {}
+    seen = set()
+    if a.exclude:
+        seen = {(r['file'], r['kind'], r['old'], r['new']) for r in json.load(open(a.exclude))['mutants']}
     for pth, kind, node, t, parents, text in cands:
         if len(jobs) >= a.sample:
             break
         new_text = apply_mutant(text, t, parents, None, kind, node)
         if new_text is None:
             continue
+        if seen:
+            ol = text.split('\n')[node.lineno - 1].strip()[:160]
+            st_ = stmt_of(node, parents)
+            nl = ' / '.join(x.strip() for x in new_text.split('\n')[st_.lineno - 1:st_.lineno + 2])[:200]
+            if (pth, kind, ol, nl) in seen:
+                continue
         mid = f's{len(jobs):04d}'
         old_line = text.split('\n')[node.lineno - 1].strip()
         st = stmt_of(node, parents)
